@@ -15,10 +15,15 @@ import (
 func VerifC15HeaderRoundTrip() {
 	root := rt.TempDir()
 	defer rt.Cleanup()
-	// quick: 1Sec, 1Min, 1D; thorough: every timeframe
+	// quick: 1Sec, 1Min, 1D; thorough: every second timeframe and 1D
 	tfIdx := int(rt.Fix(rt.Int("timeframe", 0, 2)))
 	if rt.Tier() == 1 {
-		tfIdx = int(rt.Fix(rt.Int("timeframe_all", 0, int64(len(utils.Timeframes)-1))))
+		// every second timeframe of the table, plus the last (1D)
+		n := len(utils.Timeframes)
+		tfIdx = int(rt.Fix(rt.Int("timeframe_t", 0, int64(n/2))))*2
+		if tfIdx >= n {
+			tfIdx = n - 1
+		}
 	} else {
 		tfIdx = []int{0, 3, 10}[tfIdx]
 	}
@@ -36,12 +41,16 @@ func VerifC15HeaderRoundTrip() {
 	dsv := []DataShape{{Name: "Epoch", Type: INT64}}
 	long := false
 	for c := 0; c < ncols; c++ {
-		n := int(lens[int(rt.Fix(rt.Int("namelen"+string(rune('0'+c)), 0, int64(len(lens)-1))))])
+		cl, ct := lens, types
+		if c > 0 && rt.Tier() == 1 {
+			cl, ct = lens[:3], types[:4] // the second column repeats the quick tier's choices
+		}
+		n := int(cl[int(rt.Fix(rt.Int("namelen"+string(rune('0'+c)), 0, int64(len(cl)-1))))])
 		name := rt.StringR("name"+string(rune('0'+c)), n, 33, 126)
 		if n > 32 {
 			long = true
 		}
-		dsv = append(dsv, DataShape{Name: name, Type: types[int(rt.Fix(rt.Int("type"+string(rune('0'+c)), 0, int64(len(types)-1))))]})
+		dsv = append(dsv, DataShape{Name: name, Type: ct[int(rt.Fix(rt.Int("type"+string(rune('0'+c)), 0, int64(len(ct)-1))))]})
 	}
 	// column names must differ for a valid schema, and "Epoch" is reserved
 	for a := 1; a < len(dsv); a++ {
